@@ -33,7 +33,7 @@ CONSTANTS
                  \* /repo; {} in every normal configuration, see DESIGN.md section 3):
                  \*   "RecoveryIgnoresTombstones"  D1   "MergeSelectsOnlyEligible"  D2
                  \*   "MergeNoSync"                D5a  "HintsTrustedBlindly"       D5b
-                 \*   "HintFileUnknownToStats"     D8
+                 \*   "HintFileUnknownToStats"     D8   "ScannedFileUnknownToStats" D9
                  \*   "UnlinkDescending"  (a seeded mutant, not a defect of the delivered tree)
 
 Tomb == "T"       \* the value field of a tombstone entry
@@ -190,10 +190,12 @@ RebuildFrom(st, ids, d, h) ==
     ELSE LET f   == Min(ids)
              \* a file recovered from its hint file is made known to the statistics even when the hint file
              \* yields nothing (after a kill inside a merge the hint file can lack entries of its data file)
-             stH == IF "HintFileUnknownToStats" \in Deviations THEN st
-                    ELSE [st EXCEPT !.stt = IF f \in DOMAIN @ THEN @ ELSE With(@, f, ZeroStat)]
+             \* the same for a scanned data file that yields no entry (it holds only the beginning of one)
+             known == [st EXCEPT !.stt = IF f \in DOMAIN @ THEN @ ELSE With(@, f, ZeroStat)]
+             stH == IF "HintFileUnknownToStats" \in Deviations THEN st ELSE known
+             stD == IF "ScannedFileUnknownToStats" \in Deviations THEN st ELSE known
              st1 == IF f \in DOMAIN h THEN ScanHint(stH, f, h[f].ents, DSize(d[f]))
-                                      ELSE ScanData(st, f, d[f].ents, 0)
+                                      ELSE ScanData(stD, f, d[f].ents, 0)
          IN RebuildFrom(st1, ids \ {f}, d, h)
 
 Rebuild(d, h) == RebuildFrom([kd |-> EmptyKeydir, stt |-> <<>>], DOMAIN d, d, h)
@@ -330,11 +332,22 @@ DelResult == wr.pc = "publish" /\ wr.op = "del" /\ keydir[wr.k] # NoKE
 -----------------------------------------------------------------------------------------
 (* merge: Writer::merge *)
 
+\* ground truth about a file, from the files and the index alone (what the counters should say), and
+\* eligibility by the documented thresholds on those true numbers: C13's "every non-empty file is eligible"
+\* is about the files, not about what the store happens to know or select
+TrueStatOf(f) ==
+    LET lk == {k \in Keys : keydir[k] # NoKE /\ keydir[k].fid = f}
+        lb == SetSum(lk, LAMBDA k : keydir[k].len)
+    IN [live |-> Cardinality(lk), dead |-> Len(data[f].ents) - Cardinality(lk), dbytes |-> EntsBytes(data[f].ents) - lb]
+EligibleTrue(f) ==
+    \/ TrueStatOf(f).dbytes > cfg.thDead
+    \/ FragAbove(TrueStatOf(f), cfg.thFragNum, cfg.thFragDen)
+    \/ DSize(data[f]) < cfg.thSmall
 MergeStartRec ==
     [pc |-> "m.create_data", op |-> "merge", sel |-> Selected, out |-> active + 1,
      first |-> active + 1, mpos |-> 0, k |-> None, ci |-> 1,
      size0 |-> TotalData(data),
-     full |-> \A f \in DOMAIN data : DSize(data[f]) > 0 => f \in Selected,
+     full |-> \A f \in DOMAIN data : DSize(data[f]) > 0 => EligibleTrue(f),
      unl |-> {}]
 StartMerge ==
     /\ wr = Idle
@@ -562,9 +575,14 @@ HintsAreAccelerator == IdleState => RecoveredMap(data, <<>>) = RecoveredMap(data
 MergeDone == wr.pc = "m.unlink" /\ wr.unl = {}
 LiveBytes == SetSum({k \in Keys : model[k] # None}, LAMBDA k : ESize(k, model[k]))
 MergeShrinks == MergeDone => TotalData(data) <= wr.size0
-FullMergeIsMinimal == (MergeDone /\ wr.full) => TotalData(data) = LiveBytes
+\* (crash-free histories, as the property is quantified: after a kill inside a merge the copy whose hint entry was
+\* never written is dead data in an output file that the hint-derived counters cannot see - DESIGN.md section 3)
+FullMergeIsMinimal == (MergeDone /\ wr.full /\ ncrash = 0) => TotalData(data) = LiveBytes
 MergeIdempotentInSize ==
-    (MergeDone /\ wr.full /\ mghost.lastFull # -1) => TotalData(data) = mghost.lastFull
+    (MergeDone /\ wr.full /\ mghost.lastFull # -1 /\ ncrash = 0) => TotalData(data) = mghost.lastFull
+\* every file that holds anything is known to merge selection (the downward closure of C05 and the reclaiming of
+\* C13 depend on it), also after recovery from whatever a kill left behind
+AllFilesKnown == IdleState => \A f \in DOMAIN data : DSize(data[f]) > 0 => f \in DOMAIN stats
 
 \* C14: files only ever grow at their end or disappear as a whole; new ids exceed every id
 \* the directory ever contained; a hint file belongs to a data file of the same incarnation
